@@ -13,4 +13,4 @@ def run(ctx):
                         "every operation is mirrored on container/list; its front-to-back values are part of each observation"]
 
 def replay(ctx, rp):
-    return vlib.generic_replay(ctx, rp)
+    return vlib.replay_any(ctx, rp)
